@@ -98,11 +98,8 @@ theorem scan_tok_len (t : Tok) (hok : t.ok = true) (x : Char) (X : List Char) (h
     | cons d ds =>
       refine ⟨digitChar d, ds.map digitChar ++ fracR t, by simp [Sign.render], ?_⟩
       rw [if_neg (digitChar_ne_dot d), List.append_assoc, scanLen_digits]
-      have := scanLen_body t (1 + ds.length) x X hx
-      rw [hi] at this
-      simp only [List.map_nil, List.nil_append, List.map_cons, List.cons_append] at this
-      -- redo directly: after the digits comes the fraction part
-      unfold fracR at *
+      -- after the digits comes the fraction part
+      unfold fracR
       cases hf : t.frac with
       | none =>
         simp only [List.nil_append, Sign.render, List.length_append, List.length_cons, List.length_map,
@@ -291,7 +288,7 @@ theorem firstOf_cons (t : CTok) (r : List CTok) (x : Char) (h : TokOK t) :
 
 /-- reading a group of numerals -/
 theorem scan_group {α : Type} [Arith α] (g : List CTok) (hg : ∀ t ∈ g, TokOK t) (x : Char) (X : List Char)
-    (hch : ChainTo g x) (hx : isSep x = false) :
+    (hch : ChainTo g x) (_hx : isSep x = false) :
     scanArgs (α := α) g.length (g.flatMap CTok.render ++ x :: X) =
       .ok (g.map (fun t => t.tok.value), x :: X) := by
   induction g with
